@@ -78,6 +78,10 @@ def collection_normalised_in_place(world, op, out, before, after):
     ch = changed_nodes(before, after)
     if not ch or any(t not in SHELL_TYPES for t, _, _ in ch):
         return False
+    if any(t == "list" and len(o[2][1]) != len(d[2][1]) for t, o, d in ch):
+        # the pass rewrites the items of a sequence in position: it never loses or adds one (a sequence that comes back
+        # shorter is something else)
+        return False
     if out.fired and "_prepare_items" in out.fired[3]:
         return True
     return any(info[n].get("prepare_item") not in (None, "ident") or info[n]["kind"] in ("kset", "klist")
